@@ -122,8 +122,11 @@ pub fn run<M: Model>(
                 break;
             }
         }
-        // parallel expansion
-        let expanded: Vec<(u32, Vec<(M::Action, Option<M::State>, Vec<Viol>)>)> = frontier
+        // parallel expansion, in chunks of the frontier so that the successors waiting to be merged stay
+        // bounded (merging is sequential and in frontier order => deterministic ids and paths)
+        let mut next_frontier = Vec::new();
+        for chunk in frontier.chunks(2048) {
+        let expanded: Vec<(u32, Vec<(M::Action, Option<M::State>, Vec<Viol>)>)> = chunk
             .par_iter()
             .map(|(id, s)| {
                 let mut res = Vec::new();
@@ -135,7 +138,6 @@ pub fn run<M: Model>(
                 (*id, res)
             })
             .collect();
-        let mut next_frontier = Vec::new();
         for (pid, succs) in expanded {
             for (a, next, viols) in succs {
                 stats.transitions += 1;
@@ -175,6 +177,7 @@ pub fn run<M: Model>(
                     }
                 }
             }
+        }
         }
         depth += 1;
         stats.depth_completed = depth;
